@@ -8,6 +8,7 @@ import (
 	"fmt"
 	"io"
 	"io/fs"
+	"os"
 	"os/exec"
 	"path/filepath"
 	"runtime"
@@ -23,19 +24,20 @@ var ProgramHandler func(p *Proc, script json.RawMessage) int
 
 // ProcRecord is what the world remembers about one child process.
 type ProcRecord struct {
-	Path      string                     `json:"path"`
-	Args      []string                   `json:"args,omitempty"`
-	Start     int64                      `json:"start_ns"`
-	End       int64                      `json:"end_ns"`
-	Exit      int                        `json:"exit"`
-	Finished  bool                       `json:"finished"`
-	Killed    bool                       `json:"killed"`
-	KilledAt  int64                      `json:"killed_at_ns,omitempty"`
-	StdinLen  int                        `json:"stdin_len"`
-	StdinRead int                        `json:"stdin_read"`
-	OutBytes  int                        `json:"out_bytes"`
-	ErrBytes  int                        `json:"err_bytes"`
-	Notes     map[string]json.RawMessage `json:"notes,omitempty"`
+	Path               string                     `json:"path"`
+	Args               []string                   `json:"args,omitempty"`
+	Start              int64                      `json:"start_ns"`
+	End                int64                      `json:"end_ns"`
+	Exit               int                        `json:"exit"`
+	Finished           bool                       `json:"finished"`
+	Killed             bool                       `json:"killed"`
+	KilledAt           int64                      `json:"killed_at_ns,omitempty"`
+	StdinLen           int                        `json:"stdin_len"`
+	StdinRead          int                        `json:"stdin_read"`
+	OutBytes           int                        `json:"out_bytes"`
+	ErrBytes           int                        `json:"err_bytes"`
+	SoftSignalsIgnored int                        `json:"soft_signals_ignored,omitempty"`
+	Notes              map[string]json.RawMessage `json:"notes,omitempty"`
 }
 
 // Proc is the handle a program handler works with.
@@ -48,6 +50,9 @@ type Proc struct {
 	done   bool
 	waiter *task
 	rec    ProcRecord
+
+	ignoreSoft bool
+	signalName string
 }
 
 func (p *Proc) Path() string   { return p.rec.Path }
@@ -129,6 +134,41 @@ func (p *Proc) finished() {
 	}
 }
 
+// Process mirrors the part of *os.Process a Cancel function can use.
+type Process struct {
+	Pid int
+	p   *Proc
+}
+
+// Signal delivers a signal to the simulated child: SIGKILL kills it, SIGINT /
+// SIGTERM end it unless its script ignores them.  It never blocks.
+func (ps *Process) Signal(sig os.Signal) error {
+	if ps == nil || ps.p == nil {
+		return errors.New("os: process not initialized")
+	}
+	if ps.p.done {
+		return os.ErrProcessDone
+	}
+	if sig == os.Kill {
+		ps.p.kill()
+		return nil
+	}
+	ps.p.w.logEvent("signal", ps.p.t.id+" "+sig.String())
+	Hit("proc.signal." + sig.String())
+	if ps.p.ignoreSoft {
+		ps.p.rec.SoftSignalsIgnored++
+		return nil
+	}
+	ps.p.signalName = sig.String()
+	ps.p.kill()
+	return nil
+}
+
+func (ps *Process) Kill() error { return ps.Signal(os.Kill) }
+
+// IgnoreInterrupt makes the simulated child ignore SIGINT / SIGTERM.
+func (p *Proc) IgnoreInterrupt() { p.ignoreSoft = true }
+
 // ExitError mirrors *exec.ExitError.
 type ExitError struct {
 	Code   int
@@ -157,6 +197,7 @@ type Cmd struct {
 
 	WaitDelay time.Duration
 	Cancel    func() error
+	Process   *Process
 
 	ctx  context.Context
 	proc *Proc
@@ -289,8 +330,20 @@ func (c *Cmd) Start() error {
 		code := ProgramHandler(p, script)
 		p.rec.Exit = code
 	})
+	c.Process = &Process{Pid: 1000 + len(w.procs), p: p}
 	if c.ctx != nil {
-		whenDone(c.ctx, p.kill)
+		whenDone(c.ctx, func() {
+			// as os/exec: the Cancel function if there is one, otherwise kill; then, if WaitDelay is
+			// set, a forced kill after that delay
+			if c.Cancel != nil {
+				c.Cancel()
+			} else {
+				p.kill()
+			}
+			if c.WaitDelay > 0 && !p.done {
+				w.addTimer(c.WaitDelay, func() { p.kill() })
+			}
+		})
 	}
 	w.yield("spawned", t.id)
 	return nil
@@ -308,6 +361,9 @@ func (c *Cmd) Wait() error {
 		w.block("wait for child " + p.t.id)
 	}
 	if p.rec.Killed {
+		if p.signalName != "" {
+			return &ExitError{Code: -1, Signal: p.signalName}
+		}
 		return &ExitError{Code: -1, Signal: "killed"}
 	}
 	if p.rec.Exit != 0 {
